@@ -321,7 +321,20 @@ func judge(r *hk.Run, o obs) {
 		return
 	}
 	inflight := !o.Complete && o.Kind != "none"
+	// a real timer may fire before a slow run has played all steps: at the last position either the
+	// exchange completed first or the timer hit it in flight - same judgement as a racy injection
+	timerAtEnd := o.Complete && realTimer(o.Kind)
+	if timerAtEnd {
+		inflight = true
+	}
 	switch {
+	case timerAtEnd:
+		if o.Call != "resp" && !callIdentifies(o) {
+			fail("wrong-error", "call failed with an error that does not identify the cancellation/timeout: "+o.CallErr)
+		}
+		if o.Call == "resp" && o.Body != "none" && o.Body != "eof" && !bodyIdentifies(o) {
+			fail("wrong-error", "body read failed with an error that does not identify the cancellation/timeout: "+o.BodyErr)
+		}
 	case inflight && !o.Racy:
 		// the pending operation must fail with an error identifying the cancellation/timeout
 		if o.Call == "resp" {
